@@ -264,6 +264,8 @@ def run(prog: Program) -> Results:
                     f"{fk}: `{text[:90]}` stores the result of memoised `{origin[len('G:cache:'):]}` into the document: every edit "
                     f"given the same argument inserts the very same mutable object, so an edit below one of those bindings changes "
                     f"bindings it does not address")
+    from sa.rules import merge
+    merge.check(prog, res, "R-C04-5", "R-C04-6")
     res.tables.append("allowed write classes enumerated in sa/rules/c04.py:classify (derived from the mechanisms the property names)")
     res.assumptions = ["byte extents outside the target are the renderer's behaviour and are not decided here"]
     return res
